@@ -95,3 +95,22 @@ def valgrind(ctx, res, prop, invocations, timeout=300):
             res.violate("%s/valgrind/%s" % (prop, first.split("== ")[-1][:40].replace(" ", "-")),
                         "memcheck: %s" % first, {"argv": args, "stderr_tail": text[-2500:]})
     res.extra["valgrind"] = {"invocations": n}
+
+
+def miri_single(ctx, prop, extra):
+    """One harness run under Miri (used to replay a witness found by a Miri shard)."""
+    import json
+    manifest = os.path.join(common.VERIF, "harness", "Cargo.toml")
+    tdir = os.path.join(common.TARGET, "miri")
+    env = dict(common.ENV)
+    env["MIRIFLAGS"] = "-Zmiri-disable-isolation -Zmiri-ignore-leaks"
+    out = os.path.join(ctx.scratch, "miri-replay.json")
+    extra = [a for a in extra if a != "--miri"]
+    cmd = ["cargo", "+nightly", "miri", "run", "--offline", "--manifest-path", manifest, "--target-dir", tdir, "--",
+           prop, "--tier", ctx.tier, "--seed", str(ctx.seed), "--profile", "miri", "--miri", "--out", out] + extra
+    p = subprocess.run(cmd, stdin=subprocess.DEVNULL, stdout=subprocess.DEVNULL, stderr=subprocess.PIPE, env=env, text=True)
+    if not os.path.exists(out):
+        raise common.Inconclusive("Miri replay produced no result: " + p.stderr[-800:])
+    doc = json.load(open(out))
+    doc["_cmd"] = cmd
+    return doc
